@@ -445,6 +445,12 @@ pub fn decode_with_stats(
         match entry {
             // the plain wrapper and the explicit default options must be the same thing: alternate
             Entry::Lzma if is_default_options(options) && data.len() % 2 == 0 => lzma_rs::lzma_decompress(&mut reader, &mut sink),
+            // a limit that can never bind is the same as no limit (C10): every eighth call says so
+            Entry::Lzma if options.memlimit.is_none() && data.len() % 8 == 3 => {
+                let mut o = options.clone();
+                o.memlimit = Some(usize::MAX);
+                lzma_rs::lzma_decompress_with_options(&mut reader, &mut sink, &o)
+            }
             Entry::Lzma => lzma_rs::lzma_decompress_with_options(&mut reader, &mut sink, options),
             Entry::Lzma2 => lzma_rs::lzma2_decompress(&mut reader, &mut sink),
             Entry::Xz => lzma_rs::xz_decompress(&mut reader, &mut sink),
